@@ -160,6 +160,13 @@ impl Mat {
       Some(())
     } else { None }
   }
+  // nalgebra `m.column_mut(c)` / `m.row_mut(r)`: panics when the column / row does not exist
+  pub fn col_ok(&self, c: usize) -> (o: Option<usize>)
+    ensures c < self.c ==> o == Some(c), c >= self.c ==> o.is_none(),
+  { if c < self.c { Some(c) } else { None } }
+  pub fn row_ok(&self, r: usize) -> (o: Option<usize>)
+    ensures r < self.r ==> o == Some(r), r >= self.r ==> o.is_none(),
+  { if r < self.r { Some(r) } else { None } }
   // nalgebra resize_vertically_mut / resize_horizontally_mut / resize_mut on dynamic storage: only the
   // resulting shape is assumed (the kernels overwrite every element afterwards; contents left unspecified)
   #[verifier::external_body]
